@@ -31,7 +31,9 @@ claim("C05", "DESIGN.md 5 C05",
       "packetcache New, Store, get, Get, GetAt, Last, Keyframe, resize, Resize, ResizeCond, entry.length/marker: Store puts exactly the packet (seqno, timestamp, length, marker, every byte) in slot old(tail) and nothing else changes; "
       "Get/GetAt return either nothing or exactly one stored slot's length/timestamp/marker/bytes (first match; bytes past the length untouched; a recycled or out-of-range slot yields nothing); "
       "resize copies the newest min(old,new) slots field by field and byte by byte in each of its three branches, keeps indices below the tail valid when it can, and preserves the length invariant; all for symbolic tails and 16-bit seqnos (wraparound inside the proof).",
-      "Assumed: sync.Mutex lock ghosts (every public method is verified to hold the lock from first to last access, so the sequential contracts are the linearised behaviour). "
+      "Lock coverage is an obligation, not an assumption: every field of Cache AND every access to an element of the ring (loads, stores, copies, pointers handed to callees - by address, so element pointers kept in locals count) requires the cache's mutex held; "
+      "rtpconn.readLoop (the only writer) is verified to cache each packet under the sequence number, timestamp and marker of the cached bytes' own header, with exactly the bytes read or re-serialised. "
+      "Assumed: sync.Mutex lock-ghost contract; pion Unmarshal/MarshalTo header layout. "
       "Quick tier: the ring-position restatements of resize (j-th newest slot) are stretch (10-20 s each) and claimed only in the thorough tier. Not decided: call-site preconditions in rtpconn readLoop/writers are not yet under contract.")
 
 claim("C06", "DESIGN.md 5 C06",
@@ -39,7 +41,7 @@ claim("C06", "DESIGN.md 5 C06",
       "set never un-records a received packet inside the 2^15 horizon and records only the packet given; ToBitmap's result is a lossless split of the list (every consumed seqno encoded, every set bit stands for a list element); "
       "received <= expected per interval and in total is preserved; the extended highest seqno is monotone unless the stream restarts (> 256 backwards).",
       "Assumed: 2^32 packets without a statistics reset do not occur (stated precondition). Not decided: 'a packet that goes missing from a steadily arriving stream IS requested' (needs timing/progress), "
-      "the NACK call sites in rtpreader/rtpwriter and sendUpRTCP's fraction arithmetic are not yet under contract.")
+      "rtpconn.readLoop IS under contract: the bitmap is asked for a window ending 2 to 4 packets before the newest packet only when the newest packet is more than 2 (at most 24) packets past the first missing one, and exactly what it reports is sent as a NACK; the writer-side NACK path (rtpwriter) and sendUpRTCP's fraction arithmetic are not yet under contract.")
 
 claim("C12", "DESIGN.md 5 C12",
       "No-panic sweep (index, slice bounds, nil dereference, division, type assertion, makeslice) proved for all inputs over: codecs.RewritePacket, PacketFlags, Keyframe (AV1 and H.264 parsers with loop invariants), KeyframeDimensions; "
@@ -51,7 +53,7 @@ claim("C03", "DESIGN.md 5 C03",
       "packetmap.Reverse is proved to invert the table: a hit names a source packet that some interval maps to exactly the requested number with that interval's picture-id shift; numbers outside every interval's image get nothing. "
       "The closure of rtpconn.gotNACK serving one NACKed number is verified against: nothing is emitted unless the number lies in the image of an interval; at most one packet is emitted; "
       "a number of the newest interval is answered with a packet emitted under exactly that number (Reverse newest + cache lookup + Write's late-copy clause, which re-derives the number through Map/direct).",
-      "Assumed: conn.UpTrack.GetPacket returns a cached packet whose header seqno is the requested one (justified by C05 Get and readLoop's Store call; not yet under contract), rtcp.NackPair.Range only calls the closure. "
+      "Assumed: conn.UpTrack.GetPacket returns a cached packet whose header seqno is the requested one (an interface contract; justified by C05 Get and by the verified call-site obligation in rtpconn.readLoop that packets are stored under their own header's number), rtcp.NackPair.Range only calls the closure. "
       "Not decided: older intervals of the ring (first-hit consistency between Reverse and direct is the ring-order invariant, see C01); equality of the marker bit when the selected layer changed since the original transmission (recomputed from the current layer).")
 
 claim("C10", "DESIGN.md 5 C10",
@@ -69,8 +71,10 @@ claim("C11", "DESIGN.md 5 C11",
       "(gotOffer: present; chat/usermessage forwarding and history: message or caption; clearchat, lock, subgroups, setdata, op/unop/present/..., identify, kick: op; record/unrecord: record; "
       "maketoken: token, own group, no subgroups, an expiry, and every delegated permission held - loop invariant; edittoken/listtokens: op and token, own group only; setdata on oneself only), "
       "and against the invariant 'a client that is not a member holds no permission', which is a pre- and postcondition of the handler on every return (it fails at the old redirect return and after the old AddClient: both repaired).",
-      "Assumed: frames of the handler's callees marked trusted (they leave c.group, c.permissions, c.id, c.username alone: gotOffer, negotiate, delUpConn, ... listed in the evidence), leaveGroup's postcondition, token and diskwriter externs. "
-      "Not decided: handleAction (revocation: changePermissionsAction / permissionsChangedAction) and the WHIP handlers are not yet under contract; 'from the moment the client has been notified' under concurrent delivery.")
+      "leaveGroup is verified (a client that has left holds no permission and no group, and leaves through group.DelClient); handleAction is under contract for its guards (connection offers and membership events are handled only for the client's current group; a membership event handled after the client left used to dereference a nil group: repaired); "
+      "the WHIP handlers are under contract: every effect on a WHIP session (close, version checks, ICE restart and candidates) comes after the session's bearer token was compared with the one presented, and a publisher's connection is created only after admission with the present permission. "
+      "Assumed: frames of the handler's callees marked trusted (they leave c.group, c.permissions, c.id, c.username alone: gotOffer, negotiate, delUpConn, ... listed in the evidence), token and diskwriter externs. "
+      "Not decided: revocation inside handleAction (permissionsChangedAction closing the up connections is verified for memory safety only); 'from the moment the client has been notified' under concurrent delivery.")
 
 claim("C13", "DESIGN.md 5 C13",
       "Lock-ghost verification of the group layer: for Group.{description, locked, clients, history, timestamp, data}, the table groups.groups and Channel.queue every load and store in a function under contract carries the obligation 'mutex held' "
@@ -146,7 +150,9 @@ claim("C19", "DESIGN.md 5 C19",
       "validUsername is that or empty; webserver.parseGroupName is proved to return only good names or nothing (it returned names containing a backslash: repaired); "
       "group.getDescriptionFile (both instantiations) hands the file system only paths of the form Directory joined with path.Clean of a ROOTED path plus '.json', so no name can climb out of the groups directory.",
       "Assumed (trusted contract, stated for rooted arguments only): path.Clean returns a canonical rooted path, leaves canonical paths unchanged and introduces no new bytes; strings.ContainsRune for ASCII; filepath.Join joins; os.Root confines (recordings, static files). "
-      "PARTIAL / not decided: the recording and static-file handlers (os.Root confinement is the operating system's), diskwriter.sanitise (strings.Replacer), the delete-form filename checks, that every entry point validates before use (only the functions named are under contract); "
+      "The static-file handler, serveFile, the recordings handler and its delete action are under contract: files named by a request are opened or removed ONLY through the os.Root of their directory (any call of the unconfined os.Open/OpenFile/ReadFile/Stat/Remove/Rename or http.ServeFile in them is a failed obligation), "
+      "recordings are served, listed or deleted only after the record permission for THAT group was checked, and a deletion removes Join(group, Clean('/'+filename)) for a slash-free file name. "
+      "PARTIAL / not decided: os.Root confinement itself is the operating system's; diskwriter.sanitise (strings.Replacer) and openDiskFile; that every other entry point validates before use; "
       "the trusted clauses about path.Clean are NOT proved (the thorough tier also runs tools/cleancheck, a bounded exhaustive comparison of those clauses with the real path.Clean on all 97656 rooted strings up to length 9 over {a . / \\ 0xC3}: a supporting check of the assumption, labelled bounded, never counted).")
 
 claim("C20", "DESIGN.md 5 C20",
